@@ -31,6 +31,7 @@ type c13Op struct {
 	Fault string `json:"fault,omitempty"` // login: "" | unknown-state | other-instance-state | state-of-other-jar | refuse | no_id_token | bad_sig | alg_none | hs256_secret | wrong_iss | wrong_aud | expired | no_username | nonstring_username
 	User  string `json:"user,omitempty"`
 	Claim string `json:"claim,omitempty"`
+	Tab2  string `json:"then_second_tab_logs_in_as,omitempty"` // login: a second tab of the same browser asked for /connect before the login; after this login it completes its own, as that account
 	Kind  string `json:"kind,omitempty"` // mutate: subst | trunc | append
 	Pos   int    `json:"pos,omitempty"`
 	Val   int    `json:"val,omitempty"`
@@ -57,6 +58,9 @@ func genC13(t *rapid.T) c13Case {
 			op.Fault = rapid.SampledFrom(c13Faults).Draw(t, "fault")
 			op.User = rapid.SampledFrom([]string{"alice", "bob@example.com", "Zoë Ünïcode", "carol", "alice ", " bob@example.com"}).Draw(t, "user")
 			op.Claim = rapid.SampledFrom([]string{"preferred_username", "preferred_username", "unique_name", "upn", "username"}).Draw(t, "claim")
+			if op.Fault == "" && rapid.IntRange(0, 3).Draw(t, "tab2") == 0 {
+				op.Tab2 = rapid.SampledFrom([]string{"dave", "erin@example.com", "alice"}).Draw(t, "tab2User")
+			}
 		case k == 7 && c.NTLM && rapid.Bool().Draw(t, "gatewayAuth"):
 			// correct NTLM credentials on the tunnel endpoint, presenting this browser session's cookie: that
 			// authenticates the request, never the browser session
@@ -141,6 +145,13 @@ func runC13(c c13Case) *Violation {
 				return viol("c13/no-redirect", "%s: an unauthenticated session was not redirected to the identity provider: %d %s", what, r.Code, shorten(r.Body))
 			}
 			issued = append(issued, state)
+			state2 := ""
+			if op.Tab2 != "" {
+				if s2, _, err2 := j.b.beginLogin(in, "/connect"); err2 == nil && s2 != "" {
+					state2 = s2
+					issued = append(issued, s2)
+				}
+			}
 			spec := idp.CodeSpec{Sub: "sub-" + op.User, Username: op.User, Claim: op.Claim}
 			useState := state
 			good := true
@@ -187,6 +198,20 @@ func runC13(c c13Case) *Violation {
 				}
 				j.auth, j.user, j.unspec, j.broken = true, op.User, false, false
 				redeemed = append(redeemed, code)
+				if state2 != "" {
+					// the other tab: its own state, a fresh code, a valid ID token for another account - a verified login
+					// like any other, after which the session is that account's
+					code2 := w.IdP.NewCode(idp.CodeSpec{Sub: "sub-" + op.Tab2, Username: op.Tab2, Claim: op.Claim})
+					cr2, err2 := j.b.callback(in, state2, code2)
+					if err2 != nil {
+						return viol("c13/http", "%s: %v", what, err2)
+					}
+					if cr2.Code != http.StatusFound {
+						return viol("c13/good-login-refused", "%s: the valid callback of the second tab was answered %d %s", what, cr2.Code, shorten(cr2.Body))
+					}
+					j.user = op.Tab2
+					redeemed = append(redeemed, code2)
+				}
 			}
 			// how a failing callback is answered is not part of the statement; what matters is checked right below:
 			// the session must not be served a connection file afterwards
